@@ -15,7 +15,7 @@ func init() { register("C01", C01) }
 
 // C01 — every genetic operator and epoch yields only well-formed genomes.
 func C01(p *Prog, r *Run) {
-	r.Explanation = "Well-formedness is an inductive closure property over unbounded operator histories; decided are the per-operator mechanisms that preserve it: (1) who may write the gene list, node list, node index and trait list of a genome; (2) every node that enters a genome's list enters its id index too; (3) structural mutators add genes and nodes only through the ordered insertion helpers, whose two implementations agree as algorithms modulo the key and return a list containing the new element; (4) crossover: interface nodes of all three roles seeded, endpoints of a child gene are child nodes selected by the chosen gene's own endpoint ids, a copy is appended only after a non-bypassable scan for a genetically equal link (rules shared with C04); (5) add-link: target never a sensor, no gene with equal (in id, out id, recurrence) already present (shared with C05); connect-sensors adds only missing links; (6) reuse guards: the node of a reused add-node innovation is inserted only past !haveNode, a reused link is excluded by haveGene or already by the scan; (7) duplication remaps every node and trait reference by id into the copy's own lists (shared with C06). Not decided: the induction itself; that the merge walk of the crossovers emits ascending innovation numbers; array-content facts beyond the sibling agreement of the insertion helpers."
+	r.Explanation = "Well-formedness is an inductive closure property over unbounded operator histories; decided are the per-operator mechanisms that preserve it: (1) who may write the gene list, node list, node index and trait list of a genome; (2) every node that enters a genome's list enters its id index too; (3) structural mutators add genes and nodes only through the ordered insertion helpers, whose two implementations agree as algorithms modulo the key and return a list containing the new element; (4) crossover: interface nodes of all three roles seeded, endpoints of a child gene are child nodes selected by the chosen gene's own endpoint ids, a copy is appended only after a non-bypassable scan for a genetically equal link (rules shared with C04); (5) add-link: target never a sensor, no gene with equal (in id, out id, recurrence) already present (shared with C05); connect-sensors adds only missing links; (6) reuse guards: the node of a reused add-node innovation is inserted only past !haveNode, a reused link is excluded by haveGene or already by the scan; (7) duplication remaps every node and trait reference by id into the copy's own lists (shared with C06); (8) a new gene carries a fresh or a completely matched innovation number (shared with C03); (9) Genesis fails only for a genome without connection genes or without output nodes (shared with C11.7); (10) trait references: every node and gene that enters a crossover child gets nil or an element of the trait list handed to NewGenome, the copy of an endpoint node is inserted into the very list that was searched for its id, mutators store only own traits, the random constructor only traits of the list it builds, and nothing else writes a trait reference. Not decided: the induction itself; that the merge walk of the crossovers emits ascending innovation numbers; array-content facts beyond the sibling agreement of the insertion helpers."
 	sums := NewSummaries(p)
 	gf := func(n string) *types.Var { return p.Field(PkgG, "Genome", n) }
 
@@ -143,7 +143,12 @@ func C01(p *Prog, r *Run) {
 					ok = true
 				}
 			})
-			r.Check(ok, x[0], p.Pos(fn.Pos()), "answers from the id index", x[0]+" does not answer from recv.nodeByIdMap[id]")
+			// and the answer is what the index says: the node it holds for the id resp. whether it holds one
+			why := c01IndexAnswer(p, fn, x[1])
+			if !ok && why == "" {
+				why = "does not access recv.nodeByIdMap[id]"
+			}
+			r.Check(ok && why == "", x[0], p.Pos(fn.Pos()), "answers from the id index", x[0]+" does not answer from recv.nodeByIdMap[id]: "+why)
 		}
 	})
 
@@ -153,7 +158,7 @@ func C01(p *Prog, r *Run) {
 		r.c01SinglePointOrder()
 	})
 
-	r.Rule("C01.4", "crossover keeps children well-formed: interface nodes seeded, endpoints are child nodes chosen by the gene's own endpoint ids, no genetically equal link twice, child nodes enter through nodeInsert (shared with C04)", func() {
+	r.Rule("C01.4", "crossover keeps children well-formed: interface nodes seeded, endpoints are child nodes chosen by the gene's own endpoint ids, no genetically equal link twice, child nodes enter through nodeInsert (shared with C04); the trait of every node and gene that enters the child is nil or an element of the child's own trait list; the copy of an endpoint node is inserted into the very list that was searched for its id (no node id twice)", func() {
 		r.c04IsEqualGenetically()
 		r.c04GeneCopyCtor(sums)
 		for _, n := range []string{"mateMultipoint", "mateMultipointAvg", "mateSinglePoint"} {
@@ -166,6 +171,8 @@ func C01(p *Prog, r *Run) {
 			r.c04Provenance(s)
 			r.c04Conflict(s)
 			r.c04Seeding(s)
+			r.c01ChildTraits(s, sums)
+			r.c01NodeOnce(s)
 			// the child genome is assembled from exactly the local lists
 			tm := s.tm
 			okAsm := false
@@ -255,6 +262,14 @@ func C01(p *Prog, r *Run) {
 
 	r.Rule("C01.8", "one number, one gene: a new gene carries a freshly issued innovation number or the number of a record that was matched under the complete key (kind, in node, out node, recurrence resp. split gene) - otherwise a genome can receive two genes with the same number (rules shared with C03.1-C03.3)", func() {
 		c03Core(p, r, NewSummaries(p))
+	})
+
+	r.Rule("C01.9", "expressible: Genome.Genesis refuses a genome only when it has no connection gene or no output node - neither can happen to a well-formed genome, so every produced genome can be expressed as a network and the operators that express it (add-link, Organism.Phenotype) never fail on it; in particular the failure never depends on which genes are enabled (fact shared with C11.7)", func() {
+		r.c01Expressible()
+	})
+
+	r.Rule("C01.10", "trait references stay inside the genome: NNode.Trait / Link.Trait are written only by constructors, genome builders and mutators; a mutator stores only nil, one of the receiver's own traits or a trait the receiver already holds; the random constructor only traits of the list it builds", func() {
+		r.c01OperatorTraits(sums)
 	})
 
 	r.Rule("C01.7", "duplication remaps every node and trait reference by id into the copy's own lists (shared with C06)", func() {
